@@ -5,9 +5,10 @@
    the code as written NOW.  Listed in Audit/C01.lean. -/
 import DateutilVerif.Proofs.RRuleGenHelpers
 import DateutilVerif.Proofs.RRuleGenRebuild
+import DateutilVerif.Proofs.RRuleGenDaysets
 
 namespace C01
-open RRule RrPy
+open RRule RrPy RRule.Tables
 
 /-- `rrule.__construct_byset(start, byxxx, base)` (every `base ≠ 0`; the constructor calls it with 24 and 60) -/
 theorem gen_constructByset_eq_model (r : Rule) (start : Int) (byxxx : List Int) (base : Int) (hb : base ≠ 0) :
@@ -72,5 +73,45 @@ theorem gen_rebuild_toInfo (r : Rule) (year month : Int) :
     (Gen.rebuild r {} year month).map RrPy.II.toInfo = RRule.rebuild r year month := by
   rw [gen_rebuild_eq_model]
   cases RRule.rebuild r year month <;> rfl
+
+/-! ### the day sets
+
+The methods return `(dset, start, end)`; `rrule._iter` reads `dset[start:end]`; the model's `dayset` is `range(start, end)`.
+`RRuleGen.DaysetAgrees x m`: `x` raises what `m` raises, or `x = (dset, start, end)`, `m = range(start, end)` and
+`dset[k] == k` for every `start ≤ k < end`. -/
+
+/-- `_iterinfo.ydayset`: `(list(range(yearlen)), 0, yearlen)`, the model's YEARLY day set, entry `k` is `k` -/
+theorem gen_ydayset_eq_model (r : Rule) (self : RrPy.II) (c : Cursor) (hf : r.freq = 0) :
+    Gen.ydayset r self c.year c.month c.day = .ok (intRange 0 self.yearlen, 0, self.yearlen) ∧
+    dayset r self.toInfo c = .ok (intRange 0 self.yearlen) ∧
+    ∀ k, 0 ≤ k → k < self.yearlen → Py.getIdx (intRange 0 self.yearlen) k = .ok k :=
+  RRuleGen.gen_ydayset_agrees r self c hf
+
+/-- `_iterinfo.mdayset` on the slots a `rebuild` leaves (tables of a leap / common year), month 1..12 -/
+theorem gen_mdayset_eq_model (r : Rule) (self : RrPy.II) (c : Cursor) (hf : r.freq = 1) (leap : Bool)
+    (hyl : self.yearlen = Tables.ylen leap) (hmr : self.mrange = Tables.mrangeOf leap)
+    (hm : 1 ≤ c.month ∧ c.month ≤ 12) :
+    RRuleGen.DaysetAgrees (Gen.mdayset r self c.year c.month c.day) (dayset r self.toInfo c) :=
+  RRuleGen.gen_mdayset_agrees r self c hf leap hyl hmr hm
+
+/-- `_iterinfo.wdayset` (the date is not before January 1st of the rebuilt year: earlier, Python's negative index wraps
+    around where the model raises IndexError — `_iter` rebuilds for the cursor's year before asking for the day set) -/
+theorem gen_wdayset_eq_model (r : Rule) (self : RrPy.II) (c : Cursor) (hf : r.freq = 2) (hyl : 0 ≤ self.yearlen + 7)
+    (hi : Cal.validDate c.year c.month c.day = true → 0 ≤ Cal.toOrdinal c.year c.month c.day - self.yearordinal) :
+    RRuleGen.DaysetAgrees (Gen.wdayset r self c.year c.month c.day) (dayset r self.toInfo c) :=
+  RRuleGen.gen_wdayset_agrees r self c hf hyl hi
+
+/-- `_iterinfo.ddayset` (DAILY and the sub-daily frequencies; same proviso on the date) -/
+theorem gen_ddayset_eq_model (r : Rule) (self : RrPy.II) (c : Cursor) (hf : r.freq ≠ 0 ∧ r.freq ≠ 1 ∧ r.freq ≠ 2)
+    (hi : Cal.validDate c.year c.month c.day = true → 0 ≤ Cal.toOrdinal c.year c.month c.day - self.yearordinal) :
+    RRuleGen.DaysetAgrees (Gen.ddayset r self c.year c.month c.day) (dayset r self.toInfo c) :=
+  RRuleGen.gen_ddayset_agrees r self c hf hi
+
+-- 1997-09-02 in the (common) year rebuilt for 1997: day 244, week Tue..Sun with Monday weeks
+example : ((Gen.rebuild { (default : Rule) with freq := 2 } {} 1997 9).bind fun s =>
+      (Gen.wdayset { (default : Rule) with freq := 2 } s 1997 9 2).map fun t => (t.2.1, t.2.2, t.1.drop 243 |>.take 8)) =
+    .ok (244, 250, [none, some 244, some 245, some 246, some 247, some 248, some 249, none]) := by decide +kernel
+example : ((Gen.rebuild { (default : Rule) with freq := 1 } {} 2024 2).bind fun s =>
+      (Gen.mdayset { (default : Rule) with freq := 1 } s 2024 2 1).map fun t => (t.2.1, t.2.2)) = .ok (31, 60) := by decide +kernel
 
 end C01
